@@ -2,6 +2,7 @@ import HawkModel.Gen.FncDispatch
 import HawkModel.Gen.Loops
 import HawkModel.Gen.DivSites
 import HawkModel.Gen.FlagSites
+import HawkModel.Gen.StackSites
 /-!
 # C01 — guard models for the crash-prone sites named in the property anchors
 
@@ -286,5 +287,32 @@ def factNoOverflow (f : Fact) : Bool :=
 
 open Hawk.Gen.DivSites in
 def guardsOk (fs : List Fact) : Bool := fs.any factNonzero && fs.any factNoOverflow
+
+/-! ## run-time stack: every unchecked push is covered by the reservation before it -/
+
+/-- `hawk_rtx_evalcall`: slots reserved by `stack_req` for a call that passes `callN` arguments to a function with `funN`
+    named parameters (`fun != NULL`) -/
+def evalcallReserve (funN callN : Nat) : Nat := 4 + callN + (if funN > callN then funN - callN else 0)
+
+/-- slots pushed: the four frame words, the arguments, and one nil per omitted parameter
+    (`while (nargs < fun->nargs) HAWK_RTX_STACK_PUSH(nil)`; truncated subtraction = the loop not running) -/
+def evalcallPushes (funN callN : Nat) : Nat := 4 + callN + (funN - callN)
+
+open Hawk.Gen.StackSites in
+/-- accepted shapes of a reservation row (extract/stack_sites.py):
+    (A) a fixed number of pushes under a literal reservation at least as large;
+    (B) a single loop that pushes exactly the reserved count — countdown of the reserved local, count-up to the reserved
+        expression, or the walk over `call->args` under a reservation of `call->nargs` (the parser keeps the two equal);
+    (C) the call frame of `hawk_rtx_evalcall`: four words + arguments in the base, and the padding for omitted parameters
+        reserved under exactly the condition (`fun`, `fun->nargs > call->nargs`) under which the `padto fun->nargs` loop runs. -/
+def stackRowOk (r : Row) : Bool :=
+  (r.loops == [] && r.incs == [] && r.straight > 0 && decide (r.straight ≤ r.lit)) ||
+  (r.straight == 0 && r.incs == [] && r.reserve != "" && (match r.loops with
+     | [l] => (l.shape == "countdown" && l.bound == r.reserve) || (l.shape == "countup" && l.bound == r.reserve)
+              || (l.shape == "listwalk" && l.bound == "call->args" && r.reserve == "call->nargs")
+     | _ => false)) ||
+  (r.fn == "hawk_rtx_evalcall" && r.straight == 4 && r.base == "(4+call->nargs)" &&
+     r.incs == [⟨["(fun->nargs>call->nargs)", "fun"], "(fun->nargs-call->nargs)"⟩] &&
+     r.loops == [⟨"padto", "fun->nargs", ["fun"]⟩])
 
 end Hawk.Crash
